@@ -412,8 +412,17 @@ def gen_request(r, defect=None):
         d = pkg.replace(".", "/")
         if len(stems) < (3 if defect == "prefixsibs" else 2):
             stems = (stems + [x for x in FILE_POOL if x[1] not in [y[1] for y in stems]])[:(3 if defect == "prefixsibs" else 2)]
+    if defect == "emptyroot":
+        ver = ver or "v1"
+        pkg = ".".join(ns + [name, ver])
+        d = pkg.replace(".", "/")
+        sub = sub or "admin"
+        if len(stems) < 2:
+            stems = (stems + [x for x in FILE_POOL if x[1] not in [y[1] for y in stems]])[:r.randint(2, 3)]
     for k, (stem, _) in enumerate(stems):
         p = pkg + "." + sub if (sub and k == len(stems) - 1 and k > 0) else pkg
+        if defect == "emptyroot" and k > 0:
+            p = pkg + "." + sub
         if defect == "siblings":
             p = pkg + "." + ["alpha", "apple", "alpha"][k % 3]
         if defect == "prefixsibs":
@@ -427,7 +436,11 @@ def gen_request(r, defect=None):
         f = File(f"{p.replace('.', '/')}/{stem}.proto", p, deps=list(apigen.STD_DEPS))
         # target files without any message or enum: a service-only file whose request / response messages live in a sibling
         # file, or an empty placeholder file — each still gets its types module
-        if k > 0 and (defect == "nomsg" or r.random() < 0.1):
+        if defect == "emptyroot" and k == 0:
+            # a target file in the API ROOT package that declares nothing (only a file-level resource definition)
+            f.resource_def("files.example.com/Vault", ["vaults/{vault}"])
+            bare.add(k)
+        elif k > 0 and (defect == "nomsg" or r.random() < 0.1) and files[0].proto.message_type:
             f.dep(files[0].proto.name)
             bare.add(k)
         else:
@@ -439,11 +452,13 @@ def gen_request(r, defect=None):
         f = File(f"{d}/top.proto", pkg, deps=list(apigen.STD_DEPS))
         f.message("MsgTop").field("name", 1, "string")
         files.insert(0, f)
-    rootfiles = [f for f in files if f.proto.package == pkg] or files
+    rootfiles = [f for f in files if f.proto.package == pkg and (defect != "emptyroot" or f.proto.message_type)] or [f for f in files if f.proto.message_type]
     for k, (sname, _) in enumerate(svcs):
         f = files[-1 - (k % len(files))] if (defect == "subsvc" or r.random() < 0.3) else rootfiles[k % len(rootfiles)]
         s = f.service(sname, host="files.example.com", scopes="https://www.googleapis.com/auth/cloud-platform")
-        owner = f if f.proto.message_type else files[0]
+        owner = f if f.proto.message_type else next(x for x in files if x.proto.message_type)
+        if owner is not f:
+            f.dep(owner.proto.name)
         mm = owner.proto.message_type[0]
         fq = "." + owner.proto.package + "." + mm.name
         s.rpc("Get" + sname.strip("_"), fq, fq, http=("post", f"/v1/{sname.lower()}:get"), body="*")
@@ -454,8 +469,9 @@ def gen_request(r, defect=None):
         dm = df.message("Shared")
         dm.field("value", 1, "string")
         deps.append(df)
-        files[0].dep(df.proto.name)
-        files[0].proto.message_type[0].field.add(name="shared", number=9, label=1, type=11, type_name=dm.fqn)
+        holder = next(x for x in files if x.proto.message_type)
+        holder.dep(df.proto.name)
+        holder.proto.message_type[0].field.add(name="shared", number=9, label=1, type=11, type_name=dm.fqn)
     params = []
     for _ in range(r.randint(0, 3)):
         params.append(r.choice(E2E_KNOWN))
@@ -895,6 +911,7 @@ def run(ctx):
     cases += [c for c in (make_case("C11-e2e-casepair", i, "casepair") for i in range(ctx.n(1, 6))) if c]
     cases += [c for c in (make_case("C11-e2e-siblings", i, "siblings") for i in range(ctx.n(1, 8))) if c]
     cases += [c for c in (make_case("C11-e2e-prefixsibs", i, "prefixsibs") for i in range(ctx.n(3, 16))) if c]
+    cases += [c for c in (make_case("C11-e2e-emptyroot", i, "emptyroot") for i in range(ctx.n(3, 16))) if c]
     cases += [c for c in (make_case("C11-e2e-midmarker", i, "midmarker") for i in range(ctx.n(3, 16))) if c]
     cases += [c for c in (make_case("C11-e2e-nsrepeat", i, "nsrepeat") for i in range(ctx.n(3, 16))) if c]
     checks = run_e2e(ctx, cases)
